@@ -152,7 +152,12 @@ func describe(t reflect.Type, env map[string]EnvEntry, order *[]string) *TD {
 	case reflect.Struct:
 		if t.Name() != "" {
 			n := typeName(t)
+			if prev, ok := registry[n]; ok && prev != t {
+				// two types with one name (the corpus' name clash): described in place, outside the model
+				return &TD{K: "struct", F: describeFields(t, env, order), rt: t}
+			}
 			if _, ok := env[n]; !ok {
+				registry[n] = t
 				env[n] = EnvEntry{N: n} // placeholder: recursion
 				*order = append(*order, n)
 				e := EnvEntry{N: n, F: describeFields(t, env, order)}
@@ -452,12 +457,6 @@ func (g *tgen) special(td *TD, construct string) {
 		td.F = append(td.F[:i], append([]FD{first, second}, td.F[i:]...)...)
 	case "dash-comma":
 		add(FD{Go: g.fieldName(), Tag: "-,", T: g.leaf()})
-	case "invalid-tag":
-		add(FD{Go: g.fieldName(), Tag: `na\me`, T: g.leaf()})
-	case "name-conflict":
-		n := g.jsonName(used)
-		add(FD{Go: g.fieldName(), Tag: n, T: g.leaf()})
-		add(FD{Go: g.fieldName(), Tag: n, T: g.leaf()})
 	case "repeat":
 		// fragment construct: one struct type used by several fields (cached / referenced second occurrence)
 		inner := g.strct(1, nil)
